@@ -13,6 +13,7 @@ import TaskctlVerif.Model.Capture
 import TaskctlVerif.Model.Imports
 import TaskctlVerif.Model.GlobalCfg
 import TaskctlVerif.Model.Normalise
+import TaskctlVerif.Model.VarsHeap
 import TaskctlVerif.Model.Refs
 import TaskctlVerif.Model.Loader
 import TaskctlVerif.Model.Output
@@ -131,6 +132,39 @@ def treeCase (fields : List String) : String :=
   let root := Sched.treeFinal tn fuel []
   s!"err={if root.gerr then 1 else 0}|" ++
     "|".intercalate (nodes.map fun (path, nd) => s!"{path}=" ++ finalStr nd.n (Sched.treeFinal tn fuel nd.p))
+
+/-! ### the variables container -/
+
+/-- `varsops n s0:a=x n m0,1 w2:b=_ g3:a h3:c d3` : operations on a heap of containers (`_` is the empty string) -/
+def varsopsCase (fields : List String) : String :=
+  let un (x : String) : String := if x = "_" then "" else x
+  let kvOf (x : String) : String × String :=
+    match x.splitOn "=" with
+    | [k, v] => (un k, un v)
+    | _ => (un x, "")
+  let ops : List VarsHeap.Op := fields.filterMap fun f =>
+    match f.toList with
+    | ['n'] => some .new
+    | 's' :: r => (match (String.ofList r).splitOn ":" with
+        | [c, e] => c.toNat?.map fun ci => .set ci (kvOf e).1 (kvOf e).2
+        | _ => none)
+    | 'w' :: r => (match (String.ofList r).splitOn ":" with
+        | [c, e] => c.toNat?.map fun ci => .with_ ci (kvOf e).1 (kvOf e).2
+        | _ => none)
+    | 'g' :: r => (match (String.ofList r).splitOn ":" with
+        | [c, k] => c.toNat?.map fun ci => .get ci (un k)
+        | _ => none)
+    | 'h' :: r => (match (String.ofList r).splitOn ":" with
+        | [c, k] => c.toNat?.map fun ci => .has ci (un k)
+        | _ => none)
+    | 'm' :: r => (match (String.ofList r).splitOn "," with
+        | [a, b] => (match a.toNat?, b.toNat? with
+            | some x, some y => some (.merge x y)
+            | _, _ => none)
+        | _ => none)
+    | 'd' :: r => (String.ofList r).toNat?.map .dump
+    | _ => none
+  "|".intercalate (VarsHeap.runOps [] ops).2
 
 /-! ### kinds of the nodes of raw documents -/
 
@@ -529,6 +563,7 @@ def handle (line0 : String) : String :=
   | "cockpit" :: rest => cockpitCase rest
   | "gsplit" :: rest => gsplitCase rest
   | "unify" :: rest => unifyCase rest
+  | "varsops" :: rest => varsopsCase rest
   | "native" :: _ => nativeCase
   | "glob" :: rest => globCase rest
   | "select" :: rest => selectCase rest
